@@ -337,6 +337,13 @@ pub fn check_formula_text(text: &str, st: &mut Stats) -> bool {
     roundtrip::<fol::Formula>("formula", text, &c15_class, st)
 }
 
+/// the text has an identifier that starts with the letters `not` (notable, nothing)
+fn begins_with_not(text: &str) -> bool {
+    let b = text.as_bytes();
+    let is_id = |c: u8| c.is_ascii_alphanumeric() || c == b'_';
+    (0..b.len().saturating_sub(3)).any(|i| &b[i..i + 3] == b"not" && (i == 0 || !is_id(b[i - 1]) && b[i - 1] != b'$' && b[i - 1] != b'#') && is_id(b[i + 3]))
+}
+
 fn fol_case(cfg: &Config, tmp: &std::path::Path, idx: u64, r: &mut Rng, st: &mut Stats) {
     use anthem::translating::classical_reduction::{completion::Completion, gamma::Gamma};
     use anthem::translating::formula_representation::{mu::Mu, natural::Natural, tau_star::TauStar};
@@ -392,6 +399,11 @@ fn fol_case(cfg: &Config, tmp: &std::path::Path, idx: u64, r: &mut Rng, st: &mut
             // everything the translate and simplify commands print
             let mut o = ProgOpts::default();
             o.safe = r.chance(1, 2);
+            if r.chance(1, 4) {
+                // identifiers that begin with a keyword of the target language
+                o.preds = vec![("notable".into(), 1), ("nothing".into(), 0), ("order".into(), 1), ("andy".into(), 0), ("forallx".into(), 1), ("existsy".into(), 2), ("p".into(), 1)];
+                o.symbols = vec!["nota".into(), "orb".into(), "andrew".into(), "a".into()];
+            }
             let text = if r.chance(1, 2) {
                 gen_program(r, &o)
             } else {
@@ -427,7 +439,25 @@ fn fol_case(cfg: &Config, tmp: &std::path::Path, idx: u64, r: &mut Rng, st: &mut
             }
             for (name, th) in &outputs {
                 st.inc(&format!("translation_outputs_{name}"));
-                roundtrip::<fol::Theory>("theory", &th.to_string(), &c15_class, st);
+                let printed = th.to_string();
+                roundtrip::<fol::Theory>("theory", &printed, &c15_class, st);
+                // fed back, the output must print as itself again: identifiers that the
+                // translation takes over from the program may read differently in the target
+                // language (the trees themselves may differ harmlessly, e.g. in the nesting of
+                // associative connectives, which printing does not show)
+                match printed.parse::<fol::Theory>() {
+                    Ok(back) if back == *th || back.to_string() == printed => st.inc("translation_outputs_reproduced"),
+                    Ok(back) => st.violation(
+                        format!("translation-output-reparse-differs:{}", if begins_with_not(&printed) { "identifier-begins-with-not".to_string() } else { c15_class(&printed, &back.to_string()) }),
+                        format!("the {name} output does not parse back to the tree that was printed"),
+                        J::obj().set("program", J::s(&text)).set("printed", J::s(&printed)).set("reparsed_prints_as", J::s(back.to_string())),
+                    ),
+                    Err(e) => st.violation(
+                        format!("translation-output-rejected:{}", c15_class(&printed, "")),
+                        format!("the {name} output is rejected by the parser: {e}"),
+                        J::obj().set("program", J::s(&text)).set("printed", J::s(&printed)),
+                    ),
+                }
             }
             for g in &simplified {
                 st.inc("simplify_outputs");
@@ -445,7 +475,7 @@ fn fol_case(cfg: &Config, tmp: &std::path::Path, idx: u64, r: &mut Rng, st: &mut
                         if let Ok(out2) = run_cli(&cfg.anthem_release(), &["parse", "--as", "theory", "--output", "default", g.to_str().unwrap()], None, &[], None) {
                             st.inc("cli_runs");
                             if out2.code != Some(0) || out2.stdout != out.stdout {
-                                st.violation(format!("cli-feedback:{}", c15_class("", &out.stdout)), format!("output of `anthem translate --with {with}` is not accepted / reproduced by `anthem parse --as theory`"), J::obj().set("program", J::s(&text)).set("translate_stdout", J::s(out.stdout)).set("parse_stderr", J::s(out2.stderr)));
+                                st.violation(format!("cli-feedback:{}", if begins_with_not(&out.stdout) { "identifier-begins-with-not".to_string() } else { c15_class("", &out.stdout) }), format!("output of `anthem translate --with {with}` is not accepted / reproduced by `anthem parse --as theory`"), J::obj().set("program", J::s(&text)).set("translate_stdout", J::s(out.stdout)).set("parse_stderr", J::s(out2.stderr)));
                             }
                         }
                         let _ = std::fs::remove_file(&g);
